@@ -40,9 +40,14 @@ META = {'design_ref': 'DESIGN.md section 7 / C06',
  'level_text': 'Coq theorems about the packet-id allocator for EVERY cursor position and EVERY set of reserved ids (pure list arithmetic, no enumeration): '
                'C06_alloc_ok (the id is in 1..65535, was free, is reserved for the operation afterwards, the table stays sorted and in range), '
                'C06_alloc_exhausted_only_when_full (failure only when all 65535 ids are reserved), C06_alloc_never_panics, C06_alloc_rotating (first free id '
-               'at or after the cursor, cyclically, wrap 65535 -> 1). Engine-wide, over ALL event histories (induction over runs; WF invariant of EngineProofs/WF*.v): C06_nonzero_unique (in every reachable state an operation bound to an id holds an id in 1..65535 that is reserved for it, and no other operation is bound to it), C06_no_leak (every reserved id belongs to an incomplete operation bound to it: no operations, no reserved ids), C06_retransmission_same_id (every operation surviving a connection close keeps its id). The same statements are judged on every history by the monitor mon_c06 (ids on the '
-               'wire unique among in-flight operations, non-zero, nothing reserved when no operation is incomplete) and mon_c06_retx (a DUP publish / PUBREL carries '
-               'the identifier its operation was transmitted with earlier in the session), with the cursor preset near 65535 in 15% '
-               'of the histories so that wrap-around is exercised.',
+               'at or after the cursor, cyclically, wrap 65535 -> 1). Engine-wide, over ALL event histories (induction over runs; WF invariant of '
+               'EngineProofs/WF*.v): C06_nonzero_unique (in every reachable state an operation bound to an id holds an id in 1..65535 that is reserved for it, '
+               'and no other operation is bound to it), C06_no_leak (every reserved id belongs to an incomplete operation bound to it: no operations, no '
+               'reserved ids), C06_retransmission_same_id (every operation surviving a connection close keeps its id); C06_instance_nonzero_unique / '
+               'C06_instance_no_leak / C06_instance_retransmission_same_id are the same statements for the concrete executed model (Engine/Instance.v), with '
+               'the component hypotheses discharged. The same statements are judged on every history by the monitor mon_c06 (ids on the wire unique among '
+               'in-flight operations, non-zero, nothing reserved when no operation is incomplete) and mon_c06_retx (a DUP publish / PUBREL carries the '
+               'identifier its operation was transmitted with earlier in the session), with the cursor preset near 65535 in 15% of the histories so that '
+               'wrap-around is exercised.',
  'technique': 'machine-checked proof in Coq over the engine model + lock-step correspondence of the extracted model with the implementation + extracted '
               'monitors on the implementation trace'}
